@@ -7,6 +7,7 @@
 #include <functional>
 #include <memory>
 #include <tuple>
+#include <utility>
 #include <stdexcept>
 #include <string>
 #include <vector>
@@ -233,31 +234,24 @@ namespace c02
             }
             return "?";
         }
+        // The list is written as a braced list at the call site — the one spelling that the real std::map, flat_map
+        // and any std-conforming shim signature (initializer_list<pair<K,V>> as well as <pair<const K,V>>) accept.
+        template <size_t... I> static Map *braced(const std::vector<std::pair<int, int>> &v, std::index_sequence<I...>)
+        {
+            return new Map{{v[I].first, v[I].second}...};
+        }
         Map *make_il(const std::vector<std::pair<int, int>> &v)
         {
-            using P = std::pair<int, int>;
             switch (v.size())
             {
             case 0:
-            {
-                std::initializer_list<P> il = {};
-                return new Map(il);
-            }
+                return new Map(std::initializer_list<typename Map::value_type>{});
             case 1:
-            {
-                std::initializer_list<P> il = {v[0]};
-                return new Map(il);
-            }
+                return braced(v, std::make_index_sequence<1>());
             case 2:
-            {
-                std::initializer_list<P> il = {v[0], v[1]};
-                return new Map(il);
-            }
+                return braced(v, std::make_index_sequence<2>());
             case 3:
-            {
-                std::initializer_list<P> il = {v[0], v[1], v[2]};
-                return new Map(il);
-            }
+                return braced(v, std::make_index_sequence<3>());
             }
             mc::harness_error("make_il: length %zu", v.size());
         }
